@@ -265,6 +265,8 @@ pub struct World {
     pub obligations: Vec<Obligation>,
     /// the connection whose holder is letting go of its handle right now (`HoldFuture::unhold`)
     pub releasing: Option<usize>,
+    /// real-time instant at which the case started
+    pub started: Option<std::time::Instant>,
     pub classes: BTreeSet<&'static str>,
     pub cfg: PoolCfg,
     pub logging: bool,
@@ -348,7 +350,14 @@ impl World {
     }
     fn cfg_plain(&self) -> bool {
         // no capacity / expiry interference for the reuse rules
-        self.cfg.max_idle >= 16 && matches!(self.cfg.idle_timeout_ms, None | Some(0) | Some(3_600_000) | Some(u64::MAX))
+        self.cfg.max_idle >= 16
+            && match self.cfg.idle_timeout_ms {
+                None | Some(0) | Some(3_600_000) | Some(u64::MAX) => true,
+                // a short (sub-second or fractional) timeout is no interference either while the whole case
+                // is younger than a third of it in real time: nothing can have been idle for that long
+                Some(t) if t >= 900 => self.started.map(|s| s.elapsed() < Duration::from_millis(t / 3)).unwrap_or(false),
+                _ => false,
+            }
     }
 }
 
@@ -1085,6 +1094,10 @@ pub enum Op {
     Sleep(u16),
     /// virtual time advance (timeouts)
     Advance(u16),
+    /// spurious wake-up: everybody waiting for a busy connection to become ready is woken although
+    /// nothing about the connection changed (more of the response arrived, say) - allowed by the waker
+    /// contract; whoever is woken has to ask the connection again
+    ConnNudge(u16),
 }
 
 #[derive(Clone, Debug, Serialize, Deserialize, PartialEq)]
@@ -1122,7 +1135,7 @@ fn timeout_error() -> hyperdriver::client::Error {
 
 impl Sim {
     pub fn new(cfg: PoolCfg, logging: bool) -> Self {
-        let w: W = Arc::new(Mutex::new(World { cfg: cfg.clone(), logging, ..Default::default() }));
+        let w: W = Arc::new(Mutex::new(World { cfg: cfg.clone(), logging, started: Some(std::time::Instant::now()), ..Default::default() }));
         let mut pc = PoolConfig::default();
         // u64::MAX stands for Duration::MAX ("never expire" spelled as a duration)
         pc.idle_timeout = cfg.idle_timeout_ms.map(|t| if t == u64::MAX { Duration::MAX } else { Duration::from_millis(t) });
@@ -1719,6 +1732,28 @@ impl Sim {
                 match idx(*i, cands.len()) {
                     Some(k) => {
                         self.conn_ready(cands[k]);
+                        true
+                    }
+                    None => false,
+                }
+            }
+            Op::ConnNudge(i) => {
+                let cands: Vec<usize> = {
+                    let w = self.w.lock().unwrap();
+                    w.conns.iter().enumerate().filter(|(_, c)| c.open && !c.ready && !c.shareable && !c.wakers.is_empty()).map(|(i, _)| i).collect()
+                };
+                match idx(*i, cands.len()) {
+                    Some(k) => {
+                        let wk: Vec<Waker> = {
+                            let mut w = self.w.lock().unwrap();
+                            let c = cands[k];
+                            w.log(|| format!("conn#{c} wakes its waiters although it is still busy"));
+                            w.classes.insert("spurious-wake-up-of-hand-back-task");
+                            w.conns[c].wakers.drain(..).collect()
+                        };
+                        for k in wk {
+                            k.wake();
+                        }
                         true
                     }
                     None => false,
@@ -2366,6 +2401,7 @@ pub fn op_strategy(wt: Weights) -> impl Strategy<Value = Op> {
         (wt.hs_fail, any::<u16>().prop_map(Op::HsFail).boxed()),
         (wt.release, any::<u16>().prop_map(Op::Release).boxed()),
         (wt.ready, any::<u16>().prop_map(Op::ConnReady).boxed()),
+        (if wt.ready > 0 { (wt.ready / 4).max(1) } else { 0 }, any::<u16>().prop_map(Op::ConnNudge).boxed()),
         (wt.close, any::<u16>().prop_map(Op::ConnClose).boxed()),
         (wt.takeover, any::<u16>().prop_map(Op::TakeOver).boxed()),
         (wt.bg, Just(Op::Bg).boxed()),
@@ -2445,7 +2481,7 @@ pub fn load_corpus() -> Vec<PoolCase> {
 }
 
 pub fn cfg_plain_strategy() -> impl Strategy<Value = PoolCfg> {
-    (prop_oneof![Just(None), Just(Some(3_600_000u64))], any::<bool>(), prop_oneof![2 => Just(true), 1 => Just(false)]).prop_map(|(t, cont, open_is_ready)| PoolCfg {
+    (prop_oneof![3 => Just(None), 3 => Just(Some(3_600_000u64)), 1 => Just(Some(999u64)), 1 => Just(Some(1_900u64)), 1 => Just(Some(90_500u64))], any::<bool>(), prop_oneof![2 => Just(true), 1 => Just(false)]).prop_map(|(t, cont, open_is_ready)| PoolCfg {
         idle_timeout_ms: t,
         max_idle: 32,
         cont,
@@ -2672,7 +2708,7 @@ pub fn cfg_small_idle_strategy() -> impl Strategy<Value = PoolCfg> {
 
 pub fn cfg_any_strategy() -> impl Strategy<Value = PoolCfg> {
     (
-        prop_oneof![3 => Just(None), 3 => Just(Some(0u64)), 3 => Just(Some(3_600_000u64)), 1 => Just(Some(u64::MAX))],
+        prop_oneof![3 => Just(None), 3 => Just(Some(0u64)), 3 => Just(Some(3_600_000u64)), 1 => Just(Some(u64::MAX)), 1 => Just(Some(999u64)), 1 => Just(Some(1_900u64))],
         prop_oneof![Just(0usize), Just(1), Just(2), Just(3), Just(32)],
         any::<bool>(),
         prop_oneof![2 => Just(true), 1 => Just(false)],
